@@ -80,7 +80,11 @@ Inductive instr :=
 | ISelect (kclosed kctx : wrapk)  (* select { <-connClosed: return wrap ErrClosedTransport;
                                               <-ctx.Done(): return wrap ctx.Err(); <-ack: go on } *)
 | ISetDisconnected                (* c.connStateUpdate(StateDisconnected) *)
-| ICloseTransport.                (* c.Transport.Close() *)
+| ICloseTransport                 (* c.Transport.Close() *)
+| IWriteStalled (k : wrapk)       (* scenario: the same c.write, but the peer has stopped reading: Transport.Write
+                                     blocks; only Transport.Close() (anybody's) makes it return, with an error *)
+| IWriteFailing (k : wrapk).      (* scenario: the same c.write, the transport reports an error for this write and
+                                     stays open *)
 
 Inductive call :=
 | CConnect | CPub0 | CPub1 | CPub2 | CSub | CUnsub | CPing | CDisconnect
@@ -169,6 +173,8 @@ Definition cstep (tcl ccl wl rl : bool) (a : arm) (c : cst) : option (cst * effe
     | ISelect kc kx, AAck => if ackready c then Some (set_ack adv false, ENone) else None
     | ISetDisconnected, AClosed => Some (adv, ESetDisc)
     | ICloseTransport, AClosed => Some (adv, ECloseT)
+    | IWriteStalled k, AClosed => if tcl then Some (finish c (wrap k (Leaf SWriteErr)), ENone) else None
+    | IWriteFailing k, AClosed => Some (finish c (wrap k (Leaf SWriteErr)), ENone)
     | _, _ => None
     end
   end.
@@ -312,7 +318,8 @@ Inductive point :=
 | PEntry      (* waiting for muConnecting while a Connect that waits for CONNACK holds it *)
 | PBefore     (* the cause strikes before the call writes its (first) packet *)
 | PWait1      (* parked in the first select: CONNACK / PUBACK / PUBREC / SUBACK / UNSUBACK / PINGRESP withheld *)
-| PWait2.     (* QoS 2 only: PUBREC received, PUBREL written, PUBCOMP withheld *)
+| PWait2      (* QoS 2 only: PUBREC received, PUBREL written, PUBCOMP withheld *)
+| PInWrite.   (* parked INSIDE Transport.Write of its first packet: the peer has stopped reading *)
 
 Inductive cause :=
 | CtxCancel | CtxDeadline
@@ -351,6 +358,9 @@ Definition valid (c : call) (p : point) (z : cause) : bool :=
   | PBefore => true
   | PWait1 => Nat.leb 1 (nwaits c) && negb (call_eqb c CConnect && match z with LocalDisconnect => true | _ => false end)
   | PWait2 => Nat.leb 2 (nwaits c)
+  | PInWrite => match z with LocalClose | PeerClose => true | _ => false end
+      (* a context is not looked at inside Transport.Write (that is the transport, not the client): see
+         [seq_outcomes] for "cancel, then Close" *)
   end.
 
 (* finding F14: at PEntry the call's own context is not looked at *)
@@ -361,6 +371,16 @@ Definition FUEL : nat := 40.
 
 Definition set_call0 (s : sys) (c : cst) : sys := set_calls s (upd 0 c (calls s)).
 
+(* the first write of a program replaced by f *)
+Fixpoint subst_first_write (f : wrapk -> instr) (l : list instr) : list instr :=
+  match l with
+  | [] => []
+  | IWrite k :: r => f k :: r
+  | i :: r => i :: subst_first_write f r
+  end.
+
+Definition fresh_with (f : wrapk -> instr) (c : call) : cst := set_rest (fresh c 0) (subst_first_write f (program c)).
+
 (* bring call c (index 0) to point p; the scripted peer withholds exactly the answer that parks it there *)
 Definition stage_a (c : call) (p : point) : sys :=
   let started := negb (call_eqb c CConnect) in
@@ -368,6 +388,7 @@ Definition stage_a (c : call) (p : point) : sys :=
   | PBefore => conn0 started [fresh c 0]
   | PWait1 => greedy FUEL (conn0 started [fresh c 0])
   | PWait2 => greedy FUEL (conn0 started [fresh c 1])
+  | PInWrite => greedy FUEL (conn0 started [fresh_with IWriteStalled c])
   | PEntry =>
       let s1 := greedy FUEL (conn0 false [dormant; fresh CConnect 0]) in   (* Connect parked, holds the lock *)
       greedy FUEL (set_call0 s1 (fresh c 0))
@@ -467,7 +488,7 @@ Definition cell_ok (k : cell) : bool :=
   forallb (fun r => match r with Some o => ok_outcome c z o | None => false end) (raw_outcomes k).
 
 Definition all_calls := [CConnect; CPub0; CPub1; CPub2; CSub; CUnsub; CPing; CDisconnect; CRetryPing].
-Definition all_points := [PEntry; PBefore; PWait1; PWait2].
+Definition all_points := [PEntry; PBefore; PWait1; PWait2; PInWrite].
 Definition all_causes := [CtxCancel; CtxDeadline; LocalClose; LocalDisconnect; PeerClose; Malformed].
 
 Definition all_cells : list cell :=
@@ -486,6 +507,40 @@ Definition f14_release (k : cell) : list (option outcome) :=
   let s := cell_start k in
   let s' := set_calls s (upd 1 (set_cx (nth 1 (calls s) dormant) CtxCanceled) (calls s)) in
   map (option_map (observe z)) (explore FUEL s').
+
+(* ---------- causes in sequence; Disconnect whose write is stalled or fails ---------- *)
+
+(* the call brought to its point, then several causes one after the other; observed as for the last one *)
+Definition seq_start (c : call) (p : point) (zs : list cause) : sys :=
+  fold_left (fun s z => apply_cause p z s) zs (stage_a c p).
+
+Definition seq_outcomes (c : call) (p : point) (zs : list cause) (zlast : cause) : list (option outcome) :=
+  map (option_map (observe zlast)) (explore FUEL (seq_start c p zs)).
+
+(* "cancel, then Close()" for a call parked inside Transport.Write: the cancellation alone leaves it blocked
+   (the transport does not know the context), Close must end it *)
+Definition inwrite_cancel_then_close_ok (c : call) : bool :=
+  rclass_eqb (o_res (observe CtxCancel (greedy FUEL (seq_start c PInWrite [CtxCancel])))) KBlocked &&
+  forallb (fun r => match r with
+                    | Some o => rclass_eqb (o_res o) KWrite && o_done o && o_rexit o
+                    | None => false
+                    end) (seq_outcomes c PInWrite [CtxCancel; LocalClose] LocalClose).
+
+(* Disconnect followed by Close():  0 = Disconnect's write fails (disconnect.go:28-30 returns without closing the
+   transport), 1 = Disconnect succeeds (Close is then a harmless second close) *)
+Definition dseq_start (n : nat) : sys :=
+  let d := match n with O => fresh_with IWriteFailing CDisconnect | _ => fresh CDisconnect 0 end in
+  set_tclosed (greedy FUEL (conn0 true [d])) true.
+
+Definition dseq_mid (n : nat) : sys :=   (* after the Disconnect, before the Close *)
+  let d := match n with O => fresh_with IWriteFailing CDisconnect | _ => fresh CDisconnect 0 end in
+  greedy FUEL (conn0 true [d]).
+
+Definition dseq_outcomes (n : nat) : list (option outcome) :=
+  map (option_map (observe LocalClose)) (explore FUEL (dseq_start n)).
+
+Definition dseq_ok (n : nat) (o : outcome) : bool :=
+  rclass_eqb (o_res o) (match n with O => KWrite | _ => KNil end) && o_done o && o_rexit o.
 
 (* ---------- stray acknowledgements before the cause ---------- *)
 
@@ -619,9 +674,21 @@ Definition rres_eqb (a b : rres) : bool :=
   | _, _ => false
   end.
 
-(* reconnectClient.Connect's own select (:172-189): first connection or ctx.Done() *)
-Definition rconnect_result (e : renv) : rres :=
-  if r_first e then RRNil else if r_ctx e then RRCtx else RRBlocked.
+(* what the loop has recorded so far (reconnclient.go:79: errDial, errConnect — first dial error, first
+   handshake error other than the context's) *)
+Record rrec := mkRec { rec_dial : bool; rec_connect : bool }.
+
+(* the error of reconnectClient.Connect when its context ends (:189-203):
+   wrapErrorf(ctx.Err(), "establishing first connection (dial: ..., connect: ...)") — whatever was recorded
+   is quoted in the text only, the cause is the context's error *)
+Definition rconnect_err (rc : rrec) (x : ctxst) : errv := Wrap WError (Leaf (ctx_sentinel x)).
+
+(* reconnectClient.Connect's own select (:185-203): first connection or ctx.Done() *)
+Definition rconnect_result (rc : rrec) (x : ctxst) (e : renv) : rres :=
+  if r_first e then RRNil
+  else if r_ctx e then
+    (if chain_contains unwraps_fixed (ctx_sentinel x) (rconnect_err rc x) then RRCtx else RROther)
+  else RRBlocked.
 
 (* RetryClient.Disconnect (retryclient.go:238-254): [guard] = the nil test of fix cbf3ad0 is present.
    Closing a nil channel panics. *)
@@ -649,6 +716,10 @@ Inductive rphase :=
 | RC_DialFail        (* Connect: every dial fails *)
 | RC_DialHang        (* Connect: DialContext blocks until its context ends *)
 | RC_AckWithheld     (* Connect: dial succeeds, CONNACK withheld *)
+| RC_DialFailBackoff     (* Connect: a dial failed (errDial recorded), loop in a long back-off wait *)
+| RC_RefusedBackoff      (* Connect: handshake failed — CONNACK refused, peer closed or malformed answer —
+                            (errConnect recorded), loop in a long back-off wait *)
+| RC_RefusedThenDialHang (* Connect: the same, and the NEXT dial is in progress when the context ends *)
 | RD_Never           (* Disconnect: Connect never called *)
 | RD_AfterFailed     (* Disconnect: after a Connect whose dials all failed and that was cancelled (cbf3ad0) *)
 | RD_DuringDialFail  (* Disconnect: while Connect (another goroutine) is in the dial/back-off cycle *)
@@ -666,6 +737,11 @@ Definition rphase_state (p : rphase) : lst * renv :=
   | RC_DialFail => lrun 5 LDial (renv0 DFail false)
   | RC_DialHang => lrun 5 LDial (renv0 DHang false)
   | RC_AckWithheld => lrun 5 LDial (renv0 DOk false)
+  | RC_DialFailBackoff => lrun 1 LDial (renv0 DFail false)
+  | RC_RefusedBackoff => lrun 3 LDial (set_r_base (renv0 DOk false) true true)
+  | RC_RefusedThenDialHang =>
+      let '(st, e) := lrun 3 LDial (set_r_base (renv0 DOk false) true true) in
+      lrun 1 st (set_r_dial e DHang)
   | RD_Never => (LIdle, renv0 DFail false)
   | RD_AfterFailed => lrun 5 LBackoff (set_r_ctx (renv0 DFail false) true)
   | RD_DuringDialFail => lrun 5 LDial (renv0 DFail false)
@@ -677,11 +753,25 @@ Definition rphase_state (p : rphase) : lst * renv :=
   end.
 
 Definition is_rconnect (p : rphase) : bool :=
-  match p with RC_DialFail | RC_DialHang | RC_AckWithheld => true | _ => false end.
+  match p with
+  | RC_DialFail | RC_DialHang | RC_AckWithheld | RC_DialFailBackoff | RC_RefusedBackoff | RC_RefusedThenDialHang => true
+  | _ => false
+  end.
+
+Definition rphase_recorded (p : rphase) : rrec :=
+  match p with
+  | RC_DialFail | RC_DialFailBackoff => mkRec true false
+  | RC_RefusedBackoff | RC_RefusedThenDialHang => mkRec false true
+  | _ => mkRec false false
+  end.
+
+Definition rcause_ctx (z : rcause) : ctxst :=
+  match z with RZNone => CtxLive | RZCancel => CtxCanceled | RZDeadline => CtxExpired end.
 
 Definition rvalid (p : rphase) (z : rcause) : bool :=
   match p, z with
-  | (RC_DialFail | RC_DialHang | RC_AckWithheld | RD_Never), (RZCancel | RZDeadline) => true
+  | (RC_DialFail | RC_DialHang | RC_AckWithheld | RC_DialFailBackoff | RC_RefusedBackoff | RC_RefusedThenDialHang
+     | RD_Never), (RZCancel | RZDeadline) => true
   | (RD_AfterFailed | RD_DuringDialFail | RD_WaitConnAck | RD_Connected | RD_BackoffAfterLoss), RZNone => true
   | _, _ => false
   end.
@@ -702,7 +792,7 @@ Definition rcell_run (guard : bool) (p : rphase) (z : rcause) : routcome :=
     (* the cause hits Connect's context, which is also the loop's *)
     let e1 := set_r_ctx e ctxdone in
     let '(st', e') := lrun 8 st e1 in
-    mkRO (rconnect_result e') (lgone st')
+    mkRO (rconnect_result (rphase_recorded p) (rcause_ctx z) e') (lgone st')
   else
     let '(r, st', e') := rdisconnect guard ctxdone st e in
     (* afterwards the scenario cancels the context of a Connect still pending *)
@@ -715,7 +805,8 @@ Definition rok (p : rphase) (z : rcause) (o : routcome) : bool :=
   | _ => rres_eqb (ro_res o) RRCtx && ro_loop_gone o
   end.
 
-Definition all_rphases := [RC_DialFail; RC_DialHang; RC_AckWithheld; RD_Never; RD_AfterFailed;
+Definition all_rphases := [RC_DialFail; RC_DialHang; RC_AckWithheld; RC_DialFailBackoff; RC_RefusedBackoff;
+                           RC_RefusedThenDialHang; RD_Never; RD_AfterFailed;
                            RD_DuringDialFail; RD_WaitConnAck; RD_Connected; RD_BackoffAfterLoss].
 Definition all_rcauses := [RZNone; RZCancel; RZDeadline].
 
